@@ -42,7 +42,8 @@ Record c11_case := mkCase {
   k_items : option (list bitem);               (* observed work items; None = process failed *)
   k_fail_fast : bool;
   k_outcomes : list (path * option content);   (* observed result per source *)
-  k_after : fs                                 (* the files after the run *)
+  k_after : fs;                                (* the files after the run *)
+  k_reported : list path                       (* the path named by each reported error *)
 }.
 
 Definition collect_ok (k : c11_case) : bool :=
@@ -62,7 +63,21 @@ Definition run_ok (k : c11_case) : bool :=
          && forallb (fun e => opt_content_eqb (fs_get (k_after k) (fst e)) (fs_get f' (fst e))) f'
        end.
 
-Definition c11_check (k : c11_case) : bool := collect_ok k && run_ok k.
+(** the error record of the model is keyed by the SOURCE of the failing item
+    ([snd (run_batch ..)], see [C11_one_to_one]); the paths named by the real error messages
+    must be exactly those sources *)
+Definition reported_ok (k : c11_case) : bool :=
+  if k_fail_fast k then true
+  else match collect (k_fs k) (k_input k) (k_output k) with
+       | None => true
+       | Some items =>
+         let st := snd (run_batch N (table_xform (k_outcomes k)) false 0 items (k_fs k)) in
+         let failing := map fst (filter (fun e => negb (snd e)) st) in
+         same_set_b path_eqb failing (k_reported k)
+       end.
+
+Definition c11_check (k : c11_case) : bool := collect_ok k && run_ok k && reported_ok k.
 Definition c11_diag (k : c11_case) : string :=
   ((if collect_ok k then "collect=ok" else "collect=BAD") ++
-   (if run_ok k then " run=ok" else " run=BAD"))%string.
+   (if run_ok k then " run=ok" else " run=BAD") ++
+   (if reported_ok k then " reported=ok" else " reported=BAD"))%string.
